@@ -175,7 +175,10 @@ public:
 			QueuedEventArgumentsType(std::forward<A>(args)...)
 		});
 
-		if(doCanProcess()) {
+		// The event was just added, only whether notification is enabled matters. Don't use doCanProcess() here:
+		// without queueListMutex it can see the queue as empty while processIf/processUntil on another thread
+		// takes the event out and puts it back, then a waiting thread would never be notified.
+		if(doCanNotifyQueueAvailable()) {
 			queueListConditionVariable.notify_one();
 		}
 	}
@@ -192,7 +195,10 @@ public:
 			QueuedEventArgumentsType(std::forward<A>(args)...)
 		});
 
-		if(doCanProcess()) {
+		// The event was just added, only whether notification is enabled matters. Don't use doCanProcess() here:
+		// without queueListMutex it can see the queue as empty while processIf/processUntil on another thread
+		// takes the event out and puts it back, then a waiting thread would never be notified.
+		if(doCanNotifyQueueAvailable()) {
 			queueListConditionVariable.notify_one();
 		}
 	}
